@@ -288,6 +288,63 @@ TrGraphviz ==
                    /\ Clause("C20.undirected", e.undirected)
        ELSE OutOfDomain
 
+(* ------------------------------- C15 --------------------------------- *)
+(* A transformed context K2 was built through the public API (take with     *)
+(* reorder, transposed, add_object / add_property) and both lattices were   *)
+(* observed.  Everything about K2 is logged in K1's coordinates (labels     *)
+(* move with their rows / columns), so the clauses are statements about     *)
+(* labels.  t2 is K2's own table as read back, in K2's order.               *)
+PS(s) == {<<ToSet(s[i][1]), ToSet(s[i][2])>> : i \in 1..Len(s)}
+SwapPS(S) == {<<c[2], c[1]>> : c \in S}
+(* tuples of position sets *)
+TS(s) == {[x \in 1..Len(s[i]) |-> ToSet(s[i][x])] : i \in 1..Len(s)}
+(* covers:  <<lower extent, upper extent, lower intent, upper intent>>
+   join/meet tables: <<ext a, ext b, ext join, ext meet, int a, int b, int join, int meet>> *)
+(* relations as statements: symmetric kinds as unordered pairs *)
+RelSet(s) == {IF s[i][1] = "implication" THEN <<s[i][1], <<s[i][2], s[i][3]>> >>
+              ELSE <<s[i][1], {s[i][2], s[i][3]}>> : i \in 1..Len(s)}
+K2of(t) == MkCtx(t.n, t.m, [i \in 1..t.n |-> ToSet(t.rows[i])])
+TrRel ==
+    /\ IsEv("rel")
+    /\ IF ~ K.ok THEN OutOfDomain
+       ELSE /\ Skip
+            /\ LET k2 == K2of(e.t2)
+                   C1 == PS(e.c1)
+                   C2 == PS(e.c2)
+                   nm == "C15." \o e.kind
+               IN  CASE e.kind = "perm" ->
+                          /\ Clause(nm \o ".table", k2 = PermuteCols(PermuteRows(KV, e.pi), e.rho))
+                          /\ Clause(nm \o ".concepts", C1 = C2)
+                          /\ Clause(nm \o ".covers", TS(e.cov1) = TS(e.cov2))
+                          /\ Clause(nm \o ".joinmeet", TS(e.jm1) = TS(e.jm2))
+                          /\ Clause(nm \o ".relations", RelSet(e.rel1) = RelSet(e.rel2))
+                          /\ Clause(nm \o ".count", Len(e.c1) = Len(e.c2))
+                          /\ Clause(nm \o ".gens", PS(e.g2a) = C1 /\ PS(e.g2b) = C1)
+                   [] e.kind = "transpose" ->
+                          /\ Clause(nm \o ".table", k2 = Transpose(KV))
+                          /\ Clause(nm \o ".concepts", C2 = SwapPS(C1))
+                          /\ Clause(nm \o ".covers", TS(e.cov2) = {<<x[4], x[3], x[2], x[1]>> : x \in TS(e.cov1)})
+                          /\ Clause(nm \o ".joinmeet",
+                                    TS(e.jm2) = {<<x[5], x[6], x[8], x[7], x[1], x[2], x[4], x[3]>> : x \in TS(e.jm1)})
+                          /\ Clause(nm \o ".count", Len(e.c1) = Len(e.c2))
+                          /\ Clause(nm \o ".gens", PS(e.g2a) = C2 /\ PS(e.g2b) = C2)
+                   [] e.kind = "duprow" ->
+                          /\ Clause(nm \o ".table", k2 = DupRow(KV, e.i))
+                          /\ Clause(nm \o ".intents", {c[2] : c \in C2} = {c[2] : c \in C1})
+                          /\ Clause(nm \o ".count", Len(e.c1) = Len(e.c2) /\ Cardinality(C2) = Cardinality(C1))
+                          /\ Clause(nm \o ".gens", PS(e.g2a) = C2 /\ PS(e.g2b) = C2)
+                   [] e.kind = "dupcol" ->
+                          /\ Clause(nm \o ".table", k2 = DupCol(KV, e.j))
+                          /\ Clause(nm \o ".extents", {c[1] : c \in C2} = {c[1] : c \in C1})
+                          /\ Clause(nm \o ".count", Len(e.c1) = Len(e.c2) /\ Cardinality(C2) = Cardinality(C1))
+                          /\ Clause(nm \o ".gens", PS(e.g2a) = C2 /\ PS(e.g2b) = C2)
+                   [] e.kind = "fullcol" ->
+                          /\ Clause(nm \o ".table", k2 = AddFullCol(KV))
+                          /\ Clause(nm \o ".extents", {c[1] : c \in C2} = {c[1] : c \in C1})
+                          /\ Clause(nm \o ".count", Len(e.c1) = Len(e.c2) /\ Cardinality(C2) = Cardinality(C1))
+                          /\ Clause(nm \o ".gens", PS(e.g2a) = C2 /\ PS(e.g2b) = C2)
+                   [] OTHER -> Clause("domain", FALSE)
+
 (* a public call raised on a valid input: the specification defines a result
    for every call it models, so this is never a step of the specification   *)
 TrCrash == /\ IsEv("crash")
@@ -304,6 +361,6 @@ TraceNext ==
     \/ TrTraverse("upset", TRUE) \/ TrTraverse("upset_union", TRUE)
     \/ TrTraverse("downset", FALSE) \/ TrTraverse("downset_union", FALSE)
     \/ TrLatLabels \/ TrRelations \/ TrRelationsStr \/ TrAttributes \/ TrMinimal
-    \/ TrGraphviz \/ TrCrash \/ TrDone
+    \/ TrGraphviz \/ TrRel \/ TrCrash \/ TrDone
 TraceSpec == TraceInit /\ [][TraceNext]_vars
 =============================================================================
